@@ -110,6 +110,8 @@ def _template(ctx, cfg):
     total_guess = img.here() + 4096
     if split:
         img.segment(p_type=1, p_offset=0, p_vaddr=V, p_paddr=V, p_filesz=X, p_memsz=X, p_flags=5, p_align=0x1000)
+        # the gABI orders the loadable entries among themselves only: another entry may sit between them
+        img.segment(p_type=0x6474e551, p_offset=0, p_vaddr=0, p_paddr=0, p_filesz=0, p_memsz=0, p_flags=6, p_align=16)
         img.segment(p_type=1, p_offset=stroff, p_vaddr=V + X, p_paddr=V + X, p_filesz=total_guess, p_memsz=total_guess, p_flags=6, p_align=0x1000)
     else:
         img.segment(p_type=1, p_offset=0, p_vaddr=V, p_paddr=V, p_filesz=total_guess, p_memsz=total_guess, p_flags=5, p_align=0x1000)
